@@ -115,7 +115,7 @@ func Drive(p *Property, tier Tier, seed int64, verifDir string, replay string) i
 	if nw < 1 {
 		nw = 1
 	}
-	timeout := 1800
+	timeout := 600 // quick tiers take under a minute; a worker still running after ten has hung (inconclusive)
 	if tier == Thorough {
 		timeout = 7200
 	}
